@@ -196,14 +196,24 @@ ITEMS = location_types() + budget_types() + error_types() + [
          canaries=['C11:per_document_state_cleared']),
 
     dict(src=L, path='impl LiveEvents/fn io_error', props=['C10', 'C01'],
+         rewrites=[(r'fn io_error\(&self\)', 'fn io_error(&mut self)', 1, 'R28')],
          ensures=[('C10:stored_io_error_is_reported', '''match r {
-                Ok(()) => self.error.content() is None,
-                Err(e) => self.error.content() is Some && e == (Error::IOError { cause: self.error.content().unwrap() }) }''')],
+                Ok(()) => old(self).error.content() is None && final(self).error.content() is None,
+                Err(e) => old(self).error.content() is Some && e == (Error::IOError { cause: old(self).error.content().unwrap() })
+                          && final(self).error.content() is None }'''),
+                  ('frame', '''final(self).parser == old(self).parser && final(self).input == old(self).input
+                && final(self).produced_any_in_doc == old(self).produced_any_in_doc && final(self).synthesized_null_emitted == old(self).synthesized_null_emitted
+                && final(self).inject == old(self).inject && final(self).anchors == old(self).anchors && final(self).rec_stack == old(self).rec_stack
+                && final(self).budget == old(self).budget && final(self).budget_report == old(self).budget_report && final(self).budget_report_cb == old(self).budget_report_cb
+                && final(self).alias_limits == old(self).alias_limits && final(self).total_replayed_events == old(self).total_replayed_events
+                && final(self).per_anchor_expansions == old(self).per_anchor_expansions && final(self).stop_at_doc_end == old(self).stop_at_doc_end
+                && final(self).seen_doc_end == old(self).seen_doc_end && final(self).look == old(self).look && final(self).last_location == old(self).last_location''')],
          canaries=['C10:stored_io_error_is_reported']),
     events_trait(),
     # the event pump itself: assumed contract in this revision (prophecy view pump_future)
     dict(src=L, path='impl LiveEvents/fn next_impl', trusted=True, props=['C02'],
-         ensures=[('pump', '''final(self).look == old(self).look && final(self).error == old(self).error && match r {
+         ensures=[('pump', '''final(self).look == old(self).look && (old(self).error.content() is Some ==> final(self).error.content() == old(self).error.content())
+                && (r is Err ==> !(r->Err_0 is IOError)) && match r {
                 Ok(Some(e)) => old(self).pump_future().len() > 0 && e == old(self).pump_future()[0]
                                && final(self).pump_future() == old(self).pump_future().skip(1) && final(self).last_location == e.spec_location(),
                 Ok(None) => old(self).pump_future().len() == 0 && final(self).pump_future() == old(self).pump_future(),
@@ -223,7 +233,8 @@ ITEMS = location_types() + budget_types() + error_types() + [
                           ('lookahead_served_first', '''old(self).error.content() is None && old(self).look is Some ==>
                         r == Ok::<Option<Ev<'de>>, Error>(old(self).look) && final(self).look is None
                         && final(self).last_location == old(self).look.unwrap().spec_location()
-                        && final(self).pump_future() == old(self).pump_future()''')],
+                        && final(self).pump_future() == old(self).pump_future()'''),
+                          ('C10:an_error_stored_while_pumping_stays_in_the_cell_for_finish', '''r is Err && r->Err_0 is IOError ==> old(self).error.content() is Some''')],
                  proofs=[dict(at='start', text='''
                      let pf = self.pump_future();
                      assert((seq![self.look.unwrap()] + pf).skip(1) =~= pf);
@@ -233,7 +244,8 @@ ITEMS = location_types() + budget_types() + error_types() + [
                  rewrites=[(r'Ok\(\(&self\.look\)\.into\(\)\)', 'Ok(self.look.as_ref())', None, 'R20')],
                  ensures=[('C10:io_error_checked_before_any_event', '''old(self).error.content() is Some ==>
                         r is Err && r->Err_0 is IOError && final(self).look == old(self).look
-                        && final(self).pump_future() == old(self).pump_future()''')],
+                        && final(self).pump_future() == old(self).pump_future()'''),
+                          ('C10:an_error_stored_while_pumping_stays_in_the_cell_for_finish', '''r is Err && r->Err_0 is IOError ==> old(self).error.content() is Some''')],
                  proofs=[dict(at='start', text='''
                      let pf = self.pump_future();
                      if pf.len() > 0 { assert(seq![pf[0]] + pf.skip(1) =~= pf); }''')],
@@ -248,7 +260,9 @@ ITEMS = location_types() + budget_types() + error_types() + [
                  canaries=['C16:use_site_is_alias_location_while_replaying']),
          }),
     dict(src=L, path='impl LiveEvents/fn observe_budget_for_replay', props=['C07', 'C08', 'C01'],
-         rewrites=[(r'Cow::Borrowed\(value\)', 'cowstr_borrow(value)', None, 'R8')],
+         rewrites=[(r'Cow::Borrowed\(value\)', 'cowstr_borrow(value)', None, 'R8'),
+                   (r'budget\s*\.observe\(&raw\)\s*\.map_err\(\|breach\| budget_error\(breach\)\.with_location\(ev\.location\(\)\)\)',
+                    '(match budget.observe(&raw) { Ok(__v) => Ok(__v), Err(breach) => Err(budget_error(breach).with_location(ev.location())) })', None, 'R18')],
          requires=[('enforcer_consistent', '''old(self).budget is Some ==> {
                 let b = old(self).budget.unwrap(); b.inv() && within(b.abs(), b.budget, b.per_doc()) && b.room() }''')],
          ensures=[
@@ -262,7 +276,7 @@ ITEMS = location_types() + budget_types() + error_types() + [
                                 && final(self).budget.unwrap().budget == b.budget && final(self).budget.unwrap().policy == b.policy
                                 && within(final(self).budget.unwrap().abs(), b.budget, b.per_doc())
                                 && final(self).budget.unwrap().report.documents == b.report.documents,
-                    Err(e) => true } }'''),
+                    Err(e) => !(e is IOError) } }'''),
              ('frame', '''final(self).rec_stack == old(self).rec_stack && final(self).anchors == old(self).anchors
                 && final(self).inject == old(self).inject && final(self).look == old(self).look && final(self).parser == old(self).parser
                 && final(self).total_replayed_events == old(self).total_replayed_events
@@ -286,7 +300,7 @@ ITEMS = location_types() + budget_types() + error_types() + [
                                 || ratio_breached(b.report.aliases as nat, b.defined_anchors@.len(), b.budget)))
                         && (r is Err ==> r->Err_0 is Budget) }'''),
              ('frame', '''final(self).seen_doc_end == old(self).seen_doc_end && final(self).look == old(self).look
-                    && final(self).error == old(self).error && final(self).rec_stack == old(self).rec_stack
+                    && final(self).error.content() is None && final(self).rec_stack == old(self).rec_stack
                     && final(self).anchors == old(self).anchors && final(self).inject == old(self).inject'''),
          ],
          canaries=['C10:stored_io_error_is_reported_at_the_end', 'C07:delayed_breach_is_surfaced']),
@@ -330,7 +344,7 @@ ITEMS = location_types() + budget_types() + error_types() + [
     # the body of the event pump, verified under its own name; callers (and its own recursive call)
     # see the assumed prophecy contract of `next_impl` above
     dict(src=L, path='impl LiveEvents/fn next_impl', id='LiveEvents::next_impl#body', rename='next_impl__body',
-         props=['C02', 'C08', 'C11', 'C07', 'C01'], attrs='#[verifier::rlimit(80)]',
+         props=['C02', 'C08', 'C11', 'C07', 'C10', 'C01'], attrs='#[verifier::rlimit(300)]',
          rewrites=[
              (r'self\s*\.anchors\s*\.get\(anchor_id\)\s*\.and_then\(\|o\| o\.as_ref\(\)\)', '(match self.anchors.get(anchor_id) { Some(o) => o.as_ref(), None => None })', None, 'R18'),
              (r'\.ok_or_else\(\|\| Error::unknown_anchor\(\)\.with_location\(self\.last_location\)\)\?', '.ok_or(Error::unknown_anchor().with_location(self.last_location))?', None, 'R18'),
@@ -355,6 +369,7 @@ ITEMS = location_types() + budget_types() + error_types() + [
          proofs=[
              # replay loop
              dict(before='let Some(frame) = self.inject.last_mut() else {', ghost=True, text='let ghost f1 = self.rec_stack@;'),
+             dict(before='let Some(frame) = self.inject.last_mut() else {', text='lemma_frames_facts(f1);'),
              dict(before='let Some(frame) = self.inject.last_mut() else {', text='if self.budget is Some { lemma_budget_room(self.budget.unwrap()); }'),
              dict(before='self.last_location = ev.location();', nth=1, text='''
                  assert forall|a: int, b: int| 0 <= a <= b < self.rec_stack@.len() implies
@@ -362,9 +377,13 @@ ITEMS = location_types() + budget_types() + error_types() + [
                  lemma_frames_all_pushed(f1, self.rec_stack@, ev);'''),
              # parser loop
              dict(after='let location = location_from_span(&span);', ghost=True, text='let ghost f0 = self.rec_stack@;'),
+             dict(after='let location = location_from_span(&span);', text='lemma_frames_facts(f0);'),
              dict(after='let location = location_from_span(&span);', text='if self.budget is Some { lemma_budget_room(self.budget.unwrap()); }'),
              dict(after='}, _ => {} } }, _ => {} } }', label='budget_after_observe', text='''
-                 if self.budget is Some { let b = self.budget.unwrap(); assert(within(b.abs(), b.budget, b.per_doc())); assert(budget_ok(b)); }'''),
+                 if self.budget is Some { let b = self.budget.unwrap(); assert(within(b.abs(), b.budget, b.per_doc())); lemma_budget_ok_intro(b); }'''),
+             dict(after='self.observe_budget_for_replay(&ev)?;', text='if self.budget is Some { lemma_budget_ok_intro(self.budget.unwrap()); }'),
+             dict(after='self.reset_document_state();', nth=1, text='lemma_frames_empty(self.rec_stack@);'),
+             dict(after='self.reset_document_state();', nth=2, text='lemma_frames_empty(self.rec_stack@);'),
              # scalar arm: the delivered event is the raw scalar (text, anchor id, and style)
              dict(after='Event::Scalar(val, mut style, anchor_id, tag) => {', ghost=True, text='let ghost val0 = val; let ghost style0 = style;'),
              dict(before='self.record(&ev, false, false);', nth=1, label='C02:scalar_delivered_as_parsed_up_to_the_documented_special_case', props=['C02', 'C06'],
@@ -372,8 +391,6 @@ ITEMS = location_types() + budget_types() + error_types() + [
                         value == val0 && anchor == anchor_id && l == location
                         && (st == style0 || (val0@.len() == 0 && anchor_id != 0 && (style0 is SingleQuoted || style0 is DoubleQuoted) && st is Plain)),
                       _ => false });'''),
-             dict(before='self.record(&ev, false, false);', nth=1, label='C02:attaching_an_anchor_never_changes_the_scalar_style', props=['C02', 'C06'],
-                  text='assert(match ev { Ev::Scalar { style: st, .. } => st == style0, _ => false });'),
              dict(before='self.last_location = location;', nth=1, text='''
                  assert forall|a: int, b: int| 0 <= a <= b < self.rec_stack@.len() implies
                      (#[trigger] self.rec_stack@[a]).depth >= (#[trigger] self.rec_stack@[b]).depth by { assert(f0[a].depth >= f0[b].depth); }
@@ -393,12 +410,12 @@ ITEMS = location_types() + budget_types() + error_types() + [
              dict(after='self.record(&ev, false, false);', nth=2, ghost=True, text='let ghost f2 = self.rec_stack@;'),
              dict(after='self.record(&ev, false, false);', nth=2, text='''
                  assert forall|a: int, b: int| 0 <= a <= b < f2.len() implies (#[trigger] f2[a]).depth >= (#[trigger] f2[b]).depth by { assert(f0[a].depth >= f0[b].depth); }
-                 lemma_frames_all_pushed(f0, f2, ev);'''),
+                 lemma_frames_all_pushed(f0, f2, ev); lemma_frames_facts(f2);'''),
              dict(before='self.last_location = location;', nth=3, text='lemma_frames_remaining(f2, self.rec_stack@);'),
              dict(after='self.record(&ev, false, false);', nth=3, ghost=True, text='let ghost f2 = self.rec_stack@;'),
              dict(after='self.record(&ev, false, false);', nth=3, text='''
                  assert forall|a: int, b: int| 0 <= a <= b < f2.len() implies (#[trigger] f2[a]).depth >= (#[trigger] f2[b]).depth by { assert(f0[a].depth >= f0[b].depth); }
-                 lemma_frames_all_pushed(f0, f2, ev);'''),
+                 lemma_frames_all_pushed(f0, f2, ev); lemma_frames_facts(f2);'''),
              dict(before='self.last_location = location;', nth=5, text='lemma_frames_remaining(f2, self.rec_stack@);'),
              # document boundaries: per-document state is cleared at EVERY document start and end (C11)
              dict(before='self.last_location = location;', nth=7, label='C11:document_start_clears_per_document_state', props=['C11', 'C02'],
@@ -416,7 +433,8 @@ ITEMS = location_types() + budget_types() + error_types() + [
                  lemma_frames_all_pushed(f0, self.rec_stack@, ev);'''),
          ],
          ensures=[('lookahead_untouched', 'final(self).look == old(self).look'),
-                  ('C02:pump_invariant_preserved', 'r is Ok ==> final(self).live_inv()')],
+                  ('C02:pump_invariant_preserved', 'r is Ok ==> final(self).live_inv()'),
+                  ('C10:pump_never_reports_the_io_error_itself', 'r is Err ==> !(r->Err_0 is IOError)')],
          loops={
              1: dict(invariant=[('inv', 'self.live_inv() && self.live_room() && self.look == old(self).look')],
                      ensures=[('replay_exhausted', 'self.inject@.len() == 0')],
@@ -435,4 +453,14 @@ ITEMS = location_types() + budget_types() + error_types() + [
              ('C05:nothing_may_be_left_after_the_root_value', '''r is Ok ==> old(src).rest().len() == 0 || final(src).seen_doc_end'''),
          ],
          canaries=['C05:nothing_may_be_left_after_the_root_value']),
+    # the statement of next_impl's scalar arm that re-styles a scalar, lifted on its own so that the
+    # property clause it violates (known finding F6) does not slow down the proof of the whole pump
+    dict(src=L, path='impl LiveEvents/fn next_impl', id='LiveEvents::next_impl#scalar_style',
+         fragment=r'if val\.is_empty\(\)\s*&& anchor_id != 0\s*&& matches!\(style, ScalarStyle::SingleQuoted \| ScalarStyle::DoubleQuoted\)\s*\{[^}]*\}',
+         wrapper="fn scalar_style_fragment<'x>(val: &CowStr<'x>, anchor_id: usize, style0: ScalarStyle) -> ScalarStyle { let mut style = style0; {FRAG} style }",
+         props=['C02', 'C06'],
+         ensures=[('C02:scalar_style_kept_up_to_the_documented_special_case', '''r == style0
+                    || (val@.len() == 0 && anchor_id != 0 && (style0 is SingleQuoted || style0 is DoubleQuoted) && r is Plain)'''),
+                  ('C02:attaching_an_anchor_never_changes_the_scalar_style', 'r == style0')],
+         canaries=['C02:scalar_style_kept_up_to_the_documented_special_case']),
 ]
